@@ -83,8 +83,18 @@ PostGsc ==
          /\ st' = DoPostGsc(st, v)
          /\ Note([a |-> "gsc", by |-> "step", v |-> v])
 
-\* offers O: what each active non-leaf deme proposes; S: what the filters let through
-Parents(s)   == SelectSeq(OrderedIds(s), LAMBDA d : d \in ActiveNonLeaves(s))
+\* offers O: what each candidate parent proposes; S: what the filters let through.
+\* BestPerDeme / NBC_Generator: the active non-leaf demes (sprout_generators.py:15-46).
+\* NBCGeneratorWithLocalMethod (49-77): active demes above the last two levels, plus the demes of the last-but-one
+\* level that finished in the previous metaepoch (started_at + len(history) = metaepoch count), one candidate each.
+LocalMethod(s)  == s.cfg.localmethod = 1
+JustFinished(s) == {d \in Ids(s) : Lvl(s, d) = NLevels(s) - 2 /\ ~s.D[d].active
+                                    /\ s.D[d].startedAt + s.D[d].me + 1 = s.mc}
+ParentSet(s)    == IF LocalMethod(s)
+                   THEN {d \in ActiveNonLeaves(s) : Lvl(s, d) < NLevels(s) - 2} \cup JustFinished(s)
+                   ELSE ActiveNonLeaves(s)
+OfferCap(s, d)  == IF LocalMethod(s) /\ d \in JustFinished(s) THEN 1 ELSE MaxOffer
+Parents(s)   == SelectSeq(OrderedIds(s), LAMBDA d : d \in ParentSet(s))
 RoundOf(s, f) == LET ps == SelectSeq(Parents(s), LAMBDA d : f[d] > 0) IN [i \in DOMAIN ps |-> <<ps[i], f[ps[i]]>>]
 Total(s, f, l) == Sum([d \in DOMAIN f |-> IF Lvl(s, d) = l - 1 THEN f[d] ELSE 0], DOMAIN f)
 Free(s, l)    == IF s.cfg.limit = NoLimit THEN MaxOffer * 4
@@ -97,8 +107,9 @@ Filtered(s, O, S) == /\ \A d \in DOMAIN O : S[d] <= O[d]
 
 Sprout ==
     /\ EnSprout(st)
-    /\ \E O \in [ActiveNonLeaves(st) -> 0..MaxOffer] :
-         \E S \in [ActiveNonLeaves(st) -> 0..MaxOffer] :
+    /\ \E O \in [ParentSet(st) -> 0..MaxOffer] :
+         \E S \in [ParentSet(st) -> 0..MaxOffer] :
+            /\ \A d \in ParentSet(st) : O[d] <= OfferCap(st, d)
             /\ Filtered(st, O, S)
             /\ LET R == RoundOf(st, S) IN
                /\ ValidRound(st, R) /\ WithinLimit(st, R)
